@@ -67,7 +67,21 @@ pub fn source(case: &str) -> String {
     let mut vt = Toks::new(f[2]);
     let is_enum = vt.peek() == "enm";
     let v = v_src(&mut vt);
-    if is_enum { src.push_str("<color> := :red<f64> | :green<f64> | :blue\nsrc<color> := "); } else { src.push_str("src := "); }
+    let form = f.last().and_then(|t| t.strip_prefix("form=")).unwrap_or("var");
+    // the matched value: the variable `src`, a mutable variable, or (no enum annotation to carry) written in place
+    if form == "lit" && !is_enum {
+      let mut arms = vec![];
+      for a in f[3].split(";;") {
+        let mut t = Toks::new(a);
+        let p = p_src(&mut t);
+        let g = if t.next() == "g" { format!(", {}", e_src(&mut t, "")) } else { String::new() };
+        let b = e_src(&mut t, "");
+        arms.push(format!("| {}{} => {}", p, g, b));
+      }
+      return format!("res := {}? {}.\nres", v, arms.join(" "));
+    }
+    let tilde = if form == "mut" { "~" } else { "" };
+    if is_enum { src.push_str(&format!("<color> := :red<f64> | :green<f64> | :blue\n{}src<color> := ", tilde)); } else { src.push_str(&format!("{}src := ", tilde)); }
     src.push_str(&v); src.push('\n');
     let mut arms = vec![];
     for a in f[3].split(";;") {
@@ -84,7 +98,12 @@ pub fn source(case: &str) -> String {
     let arms: Vec<String> = f[3].split(";;").map(|a| { let mut t = Toks::new(a); let p = p_src(&mut t); let b = e_src(&mut t, "fz"); format!("{} => {}", p, b) }).collect();
     let mut src = format!("fz({}) => <{}>\n", params, kind);
     for (i, a) in arms.iter().enumerate() { src.push_str(&format!("  {} {}{}\n", if i + 1 == arms.len() { "└" } else { "├" }, a, if i + 1 == arms.len() { "." } else { "" })); }
-    let args: Vec<String> = if f[5].is_empty() { vec![] } else { f[5].split(',').map(s_src).collect() };
+    let mut args: Vec<String> = if f[5].is_empty() { vec![] } else { f[5].split(',').map(s_src).collect() };
+    // the arguments: written in place, or named first (immutable or mutable variables)
+    let form = f.last().and_then(|t| t.strip_prefix("form=")).unwrap_or("lit");
+    if (form == "var" || form == "mut") && !f[4].starts_with("bcast:") {
+      for (i, a) in args.iter_mut().enumerate() { src.push_str(&format!("{}p{} := {}\n", if form == "mut" { "~" } else { "" }, i, a)); *a = format!("p{}", i); }
+    }
     if let Some(shape) = f[4].strip_prefix("bcast:") {
       let (r, c) = shape.split_once('x').unwrap(); let r: usize = r.parse().unwrap(); let c: usize = c.parse().unwrap();
       let mut lit = String::from("[");
@@ -240,6 +259,16 @@ pub fn generate(seed: u64, thorough: bool, sink: &mut Sink) -> Vec<String> {
     for x in [0i64, 4] { let mut r = countdown.clone(); r.reverse(); cases.push(format!("fn\t2\tu64\t{}\tcall\t{},{}", r.join(";;"), nu(x), nu(0))); sink.hit("rec:reversed"); }
     // broadcast of a recursive function
     cases.push(format!("fn\t1\tu64\t{}\tbcast:2x3\t{}", fact.join(";;"), (0..6).map(|_| nu(rng.range(0, 12))).collect::<Vec<_>>().join(","))); sink.hit("rec:broadcast");
+  }
+  // how the matched value and the arguments are written
+  let mut frng = Rng::new(seed ^ 0xc16f);
+  for c in cases.iter_mut() {
+    let is_match = c.starts_with("match");
+    match frng.below(4) {
+      0 => { c.push_str(if is_match { "\tform=lit" } else { "\tform=var" }); sink.hit(if is_match { "matched-value:in-place" } else { "arguments:variables" }); }
+      1 => { c.push_str("\tform=mut"); sink.hit(if is_match { "matched-value:mutable" } else { "arguments:mutable" }); }
+      _ => { sink.hit(if is_match { "matched-value:variable" } else { "arguments:in-place" }); }
+    }
   }
   cases
 }
